@@ -51,7 +51,7 @@ LEVEL_NOTE = ('Trusted: NumPy (long double), Hypothesis, vlib/ref/interp.py '
               'Python floats. Grid coordinates are taken from the library '
               'object (grids are C14\'s business).')
 DESIGN_REF = 'DESIGN.md section 5, C15'
-BUDGET = {'quick': 8000, 'thorough': 120000}
+BUDGET = {'quick': 6000, 'thorough': 120000}
 TOLERANCES = {
     'sampling': 'bitwise equal to point-by-point scalar evaluation (== on the '
                 'values, so -0.0 == 0.0)',
@@ -203,7 +203,23 @@ def _space(draw, min_n=1, max_n=5, dtypes=('float64', 'float32',
 STYLES = ['native', 'vectorize', 'vectorize_otypes', 'out', 'out', 'dual',
           'dual', 'const', 'kwargs', 'kwargs', 'kwargs_vectorize',
           'callable_obj', 'native1d', 'native1d', 'ufunc', 'ufunc',
-          'lambda_subset', 'vector']
+          'lambda_subset', 'vector', 'vectorize_history', 'identity']
+
+
+@st.composite
+def _expr_int(draw, use, depth):
+    """Expression that maps integer points to integers (no float
+    conversion anywhere): the result type follows the input type."""
+    if depth <= 0 or draw(st.integers(0, 3)) == 0:
+        if use and draw(st.integers(0, 3)):
+            return ['x', draw(st.sampled_from(sorted(use)))]
+        return ['c', draw(st.sampled_from([0, 1, -1, 2, 3, -5]))]
+    op = draw(st.sampled_from(['add', 'sub', 'mul', 'neg', 'abs', 'max',
+                               'min', 'sq']))
+    sub = _expr_int(use, depth - 1)
+    if op in ('neg', 'abs', 'sq'):
+        return [op, draw(sub)]
+    return [op, draw(sub), draw(sub)]
 
 
 @st.composite
@@ -238,10 +254,19 @@ def _sample_case(draw):
     if params:
         # the parameters always matter
         d['real'] = ['add', ['mul', ['p', 'a'], d['real']], ['p', 'b']]
+    if style == 'vectorize_history':
+        # must depend on a coordinate (the type of a constant never changes)
+        d['real'] = ['add', ['x', draw(st.sampled_from(axes))],
+                     draw(_expr_int(set(use), depth))]
+        d['first_point'] = [draw(st.integers(-3, 3)) for _ in range(ndim)]
+    if style == 'identity':
+        # returns one coordinate array unchanged
+        d['real'] = ['x', draw(st.sampled_from(axes))]
     if style == 'ufunc':
         d['ufunc'] = draw(st.sampled_from(['negative', 'absolute', 'square',
                                            'positive']))
-    if cplx and draw(st.integers(0, 3)) and style != 'ufunc':
+    if cplx and draw(st.integers(0, 3)) and style not in (
+            'ufunc', 'vectorize_history', 'identity'):
         d['imag'] = draw(_expr(set(use), set(params), max(depth - 1, 0)))
         if style == 'const':
             d['imag'] = ['c', draw(st.sampled_from(CONSTS))]
@@ -438,8 +463,9 @@ def _deform_case(draw):
     disp = [[0 if zero else draw(st.integers(-8, 8)) for _ in range(size)]
             for _ in range(ndim)]
     return {'mode': 'deform', 'space': sd, 'interp': interp, 'disp8': disp,
-            'x': draw(vs.element_descs(sd, orders=('C',), lo=-100, hi=100,
-                                       scale=10.0))}
+            'disp_order': draw(st.sampled_from(['C', 'F', 'strided'])),
+            'x': draw(vs.element_descs(sd, orders=('C', 'F', 'strided'),
+                                       lo=-100, hi=100, scale=10.0))}
 
 
 def strategy(tier):
@@ -490,6 +516,34 @@ def eval_vec(e, X, params):
     raise HarnessError('unknown expression node {!r}'.format(op))
 
 
+def eval_raw(e, x):
+    """Scalar evaluation that keeps the input's number type."""
+    op = e[0]
+    if op == 'x':
+        return x[e[1]]
+    if op == 'c':
+        return e[1]
+    a = eval_raw(e[1], x)
+    if op == 'neg':
+        return -a
+    if op == 'abs':
+        return abs(a)
+    if op == 'sq':
+        return a * a
+    b = eval_raw(e[2], x)
+    if op == 'add':
+        return a + b
+    if op == 'sub':
+        return a - b
+    if op == 'mul':
+        return a * b
+    if op == 'max':
+        return a if a >= b else b
+    if op == 'min':
+        return a if a <= b else b
+    raise HarnessError('unknown raw node {!r}'.format(op))
+
+
 def _vec_value(real, imag, X, params, cplx):
     re = eval_vec(real, X, params)
     if not cplx or imag is None:
@@ -517,7 +571,21 @@ def make_callable(desc, cplx):
     def idx(x):
         return lambda i: x[i]
 
-    if style in ('native', 'lambda_subset', 'const'):
+    if style == 'vectorize_history':
+        @odl.util.vectorize
+        def f(x):
+            return eval_raw(real, x)
+        # history: first used at an integer point / integer point array
+        fp = desc['first_point']
+        first = f(fp[0] if len(fp) == 1 else list(fp))
+        want = eval_raw(real, fp)
+        if not np.asarray(first).shape == () or first != want:
+            raise Violation('C15|sample|vectorize-direct|int-point',
+                            'f({}) = {!r} expected {!r}'.format(fp, first,
+                                                                want))
+        if len(fp) > 1:
+            f(np.array([fp, fp]).T)
+    elif style in ('native', 'lambda_subset', 'const', 'identity'):
         if style == 'const':
             const = ref.value_at(real, imag, [], {}, cplx and
                                  imag is not None)
@@ -630,7 +698,8 @@ def run_sample(desc):
     cplx = dtype.kind == 'c'
     ndim = space.ndim
     style = desc['style']
-    vecs = [np.asarray(v, dtype=float) for v in space.grid.coord_vectors]
+    vecs = [np.array(v, dtype=float, copy=True)
+            for v in space.grid.coord_vectors]
     shape = tuple(len(v) for v in vecs)
     strata = ['mode:sample', 'style:' + style, 'ndim:{}'.format(ndim),
               'dtype:' + sd['dtype'], 'space:' + sd['kind']]
@@ -764,6 +833,18 @@ def run_sample(desc):
                                   cplx) for k in range(2)]).astype(dtype)
     compare('no-bounds-check', r, want)
     checks += 2
+    # (3) the new element owns its data: writing to it must not change the
+    # sampling grid of the space (last, because it destroys the element)
+    shared = any(np.shares_memory(elem.asarray(), cv)
+                 for cv in space.grid.coord_vectors)
+    elem.asarray()[...] = 4711
+    for i, (cv, v0) in enumerate(zip(space.grid.coord_vectors, vecs)):
+        if not np.array_equal(np.asarray(cv), v0):
+            raise Violation(
+                'C15|sample|element-aliases-grid|' + sig_tail,
+                'writing to space.element(f) changed grid.coord_vectors[{}] '
+                'from {} to {} (shares memory: {}); real={!r}'.format(
+                    i, v0.tolist(), np.asarray(cv).tolist(), shared, real))
     nontriv = (ndim >= 2 or style not in ('native', 'const') or
                sd['kind'] != 'discr')
     return Outcome('ok', strata=strata, nontrivial=nontriv,
@@ -1265,12 +1346,28 @@ def run_deform(desc):
     sides = np.asarray(space.cell_sides, dtype=float)
     disp = [np.array(dk, dtype=float).reshape(space.shape) / 8.0 * s
             for dk, s in zip(desc['disp8'], sides)]
-    field = space.tangent_bundle.element(
-        [d.astype(space.dtype) for d in disp])
+    order = desc.get('disp_order', 'C')
+
+    def laid_out(a):
+        a = a.astype(space.dtype)
+        if order == 'F':
+            return np.asfortranarray(a)
+        if order == 'strided':
+            big = np.zeros(tuple(2 * n for n in a.shape), dtype=a.dtype)
+            view = big[tuple(slice(None, None, 2) for _ in a.shape)]
+            view[...] = a
+            return view
+        return a
+
+    tb = space.tangent_bundle
+    field = tb.element([tb[i].element(laid_out(d))
+                        for i, d in enumerate(disp)])
     zero = all(not np.any(d) for d in disp)
     strata = ['mode:deform', 'ndim:{}'.format(ndim), 'dtype:' + sd['dtype'],
               'schemes:' + ('mixed' if mixed else schemes[0]),
-              'disp:' + ('zero' if zero else 'nonzero')]
+              'disp:' + ('zero' if zero else 'nonzero'),
+              'disp-layout:' + order,
+              'template-layout:' + desc['x'].get('order', 'C')]
     sig_tail = 'mixed' if mixed else schemes[0]
     got = linear_deform(x, field, interp=desc['interp'])
     if not isinstance(got, np.ndarray) or got.shape != space.shape:
